@@ -8,7 +8,8 @@ import re
 
 ID = "C16"
 RULE = ("random calculation trees up to depth 4 over + - * / with numbers in px/em/rem/%/vw/deg/s/unitless (negatives "
-        "included), nested calc/min/max/clamp, Sass variables and interpolation as operands, both output styles; each is "
+        "included), nested calc/min/max/clamp, Sass variables and interpolation as operands, both output styles, printed either "
+        "fully parenthesised or with the fewest parentheses that keep the tree (`a / b / c`, `a - b + c`); each is "
         "evaluated under 8 random unit environments. non-trivial = at least one operator and one relative unit or nested "
         "function; distinct = distinct expression texts.")
 ASSUMPTIONS = ["relative tolerance 2e-6 on quantities (emitted numbers are rounded to 10 digits in their own unit); `%`, em, rem, vw are opaque lengths with a random px value per environment",
@@ -102,6 +103,28 @@ def render(t, top=False):
     if k == "calc":
         return "calc(%s)" % render(t[1])
     raise ValueError(k)
+
+
+_PREC = {"+": 1, "-": 1, "*": 2, "/": 2}
+
+
+def render_min(t):
+    """like render(), but with the fewest parentheses that keep the tree: operator precedence and left associativity
+    carry the structure (`a / b / c`, `a - b + c`, `a / b * c`), so the calculation parser's own grouping is exercised"""
+    k = t[0]
+    if k in _PREC:
+        l, r = t[1], t[2]
+        ls, rs = render_min(l), render_min(r)
+        if l[0] in _PREC and _PREC[l[0]] < _PREC[k]:
+            ls = "(%s)" % ls
+        if r[0] in _PREC and (_PREC[r[0]] < _PREC[k] or (_PREC[r[0]] == _PREC[k] and k in "-/") or (_PREC[r[0]] == _PREC[k] and r[0] != k)):
+            rs = "(%s)" % rs
+        return "%s %s %s" % (ls, k, rs)
+    if k in ("min", "max", "clamp"):
+        return "%s(%s)" % (k, ", ".join(render_min(a) for a in t[1]))
+    if k == "calc":
+        return "calc(%s)" % render_min(t[1])
+    return render(t)
 
 
 def unit_val(u, env):
@@ -329,9 +352,15 @@ def run(sh):
             t = g.tree(dim, rng.range(1, 4))
             if t[0] in ("num", "var", "interp"):
                 t = ("calc", t)
-            txt = render(t)
-            if t[0] in "+-*/":
-                txt = "calc" + txt
+            if rng.chance(0.5):
+                txt = render(t)
+                if t[0] in "+-*/":
+                    txt = "calc" + txt
+            else:
+                txt = render_min(t)
+                if t[0] in "+-*/":
+                    txt = "calc(%s)" % txt
+                sh.count("cases_with_minimal_parentheses")
             cases.append((t, txt))
             decls.append("p%d: %s;" % (i, txt))
         for name, node in g.vars:
